@@ -380,29 +380,49 @@ fn run_prog(p: &Prog) -> Result<(Vec<(String, String)>, String), String> {
             }
             std::thread::sleep(Duration::from_millis(2));
         }
-        // a later job still runs
+        // a later job still runs: accepted (a refusal counts only while the census shows that
+        // no pool thread exists) and executed exactly once; wall-clock expiry is no verdict
         let ran = Arc::new(AtomicUsize::new(0));
         let r2 = ran.clone();
         let mut f = Some(move || {
             r2.fetch_add(1, Ordering::SeqCst);
         });
         let t0 = Instant::now();
-        loop {
+        let mut refused_without_threads = 0;
+        let mut accepted = false;
+        while t0.elapsed() < Duration::from_secs(10) {
             match pool.dispatch(f.take().unwrap()) {
-                Ok(()) => break,
+                Ok(()) => {
+                    accepted = true;
+                    break;
+                }
                 Err(e) => f = Some(e.0),
             }
-            if t0.elapsed() > Duration::from_secs(2) {
-                break;
+            if thread_count() <= threads_before {
+                refused_without_threads += 1;
+                if refused_without_threads >= 50 {
+                    break;
+                }
+            } else {
+                refused_without_threads = 0;
             }
-            std::thread::yield_now();
+            std::thread::sleep(Duration::from_millis(2));
         }
-        let t0 = Instant::now();
-        while ran.load(Ordering::SeqCst) == 0 && t0.elapsed() < Duration::from_secs(3) {
-            std::thread::sleep(Duration::from_millis(1));
-        }
-        if ran.load(Ordering::SeqCst) != 1 {
-            viol.push((format!("C17/job-after-retirement-did-not-run/{ctx}"), format!("a job dispatched after the idle period ran {} times", ran.load(Ordering::SeqCst))));
+        if !accepted && refused_without_threads >= 50 {
+            viol.push((format!("C17/job-after-retirement-refused/{ctx}"),
+                "after the idle period the pool refused 50 dispatches in a row although no pool thread exists (thread census)".to_string()));
+        } else if !accepted {
+            return Err("pool refused work for 10 s after the idle period while pool threads exist".into());
+        } else {
+            let t0 = Instant::now();
+            while ran.load(Ordering::SeqCst) == 0 && t0.elapsed() < Duration::from_secs(10) {
+                std::thread::sleep(Duration::from_millis(1));
+            }
+            match ran.load(Ordering::SeqCst) {
+                1 => {}
+                0 => return Err("a job accepted after the idle period did not run within 10 s".into()),
+                n => viol.push((format!("C17/job-after-retirement-ran-several-times/{ctx}"), format!("a job dispatched after the idle period ran {n} times"))),
+            }
         }
     }
     let sat = if max >= p.limit { "saturated" } else { "below-limit" };
